@@ -80,7 +80,8 @@ func (c *converter) ProgramEnd() error {
 			fmt.Sprintf(`local _l=%s`, c.sliceLenString("${2}")),
 			"local _n=$(eval \"echo \\${${1}}\")",
 			"while [ ${_i} -lt ${_l} ]; do",
-			fmt.Sprintf("local _v=%s", c.sliceEvaluationString("${2}", "${_i}")),
+			`local _v`,
+			`eval "_v=\"\${${2}[${_i}]}\""`,
 			c.sliceAssignmentString("${_n}", "${_i}", `\${_v}`, false),
 			"_i=$((${_i}+1))",
 			"done",
@@ -398,11 +399,9 @@ func (c *converter) SliceInstantiation(values []string, valueUsed bool) (string,
 
 func (c *converter) SliceEvaluation(name string, index string, valueUsed bool) (string, error) {
 	helper := c.nextHelperVar()
-	c.VarAssignment(
-		helper,
-		c.sliceEvaluationString(name, index),
-		false,
-	)
+
+	// Assign within eval instead of capturing an echo to keep the element byte for byte (also trailing newlines).
+	c.addLine(fmt.Sprintf(`eval "%s=\"\${%s[%s]}\""`, c.varName(helper, false), name, index))
 	return c.VarEvaluation(helper, valueUsed, false)
 }
 
@@ -578,10 +577,6 @@ func (c *converter) varEvaluationString(name string, global bool) string {
 func (c *converter) sliceAssignmentString(name string, index string, value string, global bool) string {
 	c.sliceAssignmentHelperRequired = true
 	return fmt.Sprintf(`eval "%s[%s]=\"%s\""`, name, index, value)
-}
-
-func (c *converter) sliceEvaluationString(name string, index string) string {
-	return fmt.Sprintf(`$(eval "echo \"\${%s[%s]}\"")`, name, index)
 }
 
 func (c *converter) sliceLenString(name string) string {
